@@ -977,3 +977,81 @@ def run(ctx):
     # root end point that rounds outwards) sends an in-range query past the root, whose parent is None (rule of C06)
     from . import c06
     ctx.guard(c06.r06_3)
+
+
+# ------------------------------------------------------------------------------------------------ R07.8
+def r07_8(ctx):
+    """Termination of the dyadic descent in `_Interval._split` (halfway_tree=True, BrownianTree).
+
+    The loop splits a node at the *quantised* midpoint and descends towards the requested point.  In floating point the
+    quantised midpoint of a narrow node can coincide with one of its end points although the requested point lies
+    strictly inside (tol = 1e-14 at t = 45: node [45.85031670664449, 45.85031670664451], requested 45.8503167066445,
+    `round(0.5 * (start + end), 14)` = the right end).  The child on the requested side is then the node itself.  The
+    quantiser is therefore modelled adversarially: idempotent on the node's end points and on the requested point, and
+    mapping the computed midpoint to the right (or the left) end point.  The descent must still terminate, and the
+    requested point must end up as the boundary between two nodes (the tree search that called `_split` continues from
+    there)."""
+    rep, model = ctx.rep, ctx.model
+    rep.rule("R07.8", "the dyadic descent of _Interval._split terminates also when the quantised midpoint of a node falls on "
+                      "one of its end points, and leaves the requested point as a node boundary")
+    from ..interp import Interp, Intrinsic, Obj
+    from ..nf import Rat
+    from . import brownian_kit as bk
+    split = model.func(BI, "_Interval._split")
+    rep.analysed(split)
+    icls = model.cls(BI, "_Interval")
+    F = Fraction
+    n = 0
+    for label, lands_on in (("midpoint quantised to the right end", "end"), ("midpoint quantised to the left end", "start"),
+                            ("midpoint resolved (control)", None)):
+        for S, M, E in ((F(0), F(1, 2), F(2)), (F(0), F(3, 2), F(2)), (F(10), F(41, 4), F(11))):
+            fixed = {S, M, E}
+
+            def rnd(it, a, k, nd, f, S=S, E=E, fixed=fixed, lands_on=lands_on):
+                x = a[0]
+                x = x.const_value() if isinstance(x, Rat) else x
+                if x in fixed or lands_on is None:
+                    return x
+                if S < x < E:
+                    return E if lands_on == "end" else S
+                return x
+            top, _ = bk.make_top(model, halfway=True, extra={"_round": Intrinsic("_round", rnd)})
+            parent = Obj("parent", attrs={"_spawn_key": F(0), "_depth": F(0)})
+            node = Obj("node", cls=icls, attrs={"_parent": parent, "_is_left": True, "_top": top, "_start": S, "_end": E,
+                                                "_midway": None})
+            construct = f"{split.key}::R07.8::{label}::[{S},{E}] split at {M}"
+            it = Interp(model, bk.BrownianHooks())
+            n += 1
+            try:
+                it.call_function(split, [node, M], {})
+            except AnalysisError as e:
+                if "loop bound exceeded" not in str(e):
+                    raise
+                rep.fail("R07.8", astq.loc(split), construct,
+                         f"node [{S}, {E}], requested split point {M}, {label}: the descent does not terminate (the child "
+                         f"on the requested side has the end points of its parent, so every pass repeats the last one and "
+                         f"adds a tree node): a BrownianTree query hangs until memory is exhausted")
+                continue
+            # the requested point is now a boundary somewhere on the descent path
+            cur, found, depth = node, False, 0
+            while isinstance(cur, Obj) and cur.attrs.get("_midway") is not None and depth < 64:
+                mid = cur.attrs["_midway"]
+                mid = mid.const_value() if isinstance(mid, Rat) else mid
+                if mid == M:
+                    found = True
+                    break
+                cur = cur.attrs.get("_left_child") if M < mid else cur.attrs.get("_right_child")
+                depth += 1
+            rep.check(found, "R07.8", astq.loc(split), construct,
+                      f"node [{S}, {E}], requested split point {M}, {label}: after _split no node on the way down to {M} "
+                      f"has it as its split point, so the tree search that asked for the split cannot finish",
+                      "terminates with the requested point as a node boundary")
+    ctx.floor("R07.8", 9)
+
+
+_run_c07h = run
+
+
+def run(ctx):
+    _run_c07h(ctx)
+    ctx.guard(r07_8)
